@@ -30,9 +30,13 @@ def run(chk, tier, proof_ok):
             todo.append(dict(families=[fam]))
     for _ in range(40 if full else 8):
         todo.append(dict())
+    todo += [dict(td=True)] * (8 if full else 2)
     for kw in todo:
-        c = plumbing.gen_case(rng, 'resume', allow_saveload=False, allow_dynamic=True,
-                              window_choices=[5, 9, 20, 40], **kw)
+        if kw.get('td'):
+            c = plumbing.gen_td_case(rng, 'resume-td', allow_saveload=False)
+        else:
+            c = plumbing.gen_case(rng, 'resume', allow_saveload=False, allow_dynamic=True,
+                                  window_choices=[5, 9, 20, 40], **kw)
         N = rng.choice([24, 48, 96]) if full else 14
         ncfg += 1
         f, k = realsearch.resume_findings(c, N, double=rng.random() < 0.3)
